@@ -71,8 +71,15 @@ Section Txn.
   Notation c_find := (coll_find matchf).
 
   (* Handle.Validate(true) and the local.* write guard *)
+  Fixpoint has_dot (s : string) : bool :=
+    match s with
+    | EmptyString => false
+    | String c t => Ascii.eqb c "."%char || has_dot t
+    end.
+
   Definition valid_handle (h : handle) (need_coll : bool) : bool :=
-    negb (String.eqb (fst h) "") && (negb need_coll || negb (String.eqb (snd h) "")).
+    negb (String.eqb (fst h) "") && negb (has_dot (fst h)) &&
+    (negb need_coll || negb (String.eqb (snd h) "")).
   Definition is_local (h : handle) : bool := String.eqb (fst h) "local".
 
   (* ---------------------------------------------------------------- *)
